@@ -112,22 +112,27 @@ def run(ck):
         reqs.append(("rule", "D x;(x*y)**%d" % n, "x", "(x*y)**%d" % n))
     for f in ["x**y", "y**x", "x**x", "x**2.5", "2.5**x", "x**(y+1)", "(x+1)**(1/3)", "x>0 ? x*x : -x", "y>0 ? x : 2*x", "y > 0 ? 1 : 2"]:
         reqs.append(("rule", "D x;" + f, "x", f))
+    def with_var(gen, depth):
+        for _ in range(20):
+            f = gen.formula(depth)
+            names = sorted(set(re.findall(r"\b(?:x|y|z|T|Q|b_2)\b", f)))
+            if names:
+                return f, names
+        return "x", ["x"]
+
     g = L.Gen(rng, tab, diff_only=True)
     for _ in range(n_d):
-        f = g.formula(6)
-        names = sorted(set(re.findall(r"\b(?:x|y|z|T|Q|b_2)\b", f))) or ["x"]
+        f, names = with_var(g, 6)
         v = rng.choice(names) if rng.random() < 0.97 else "w"
         reqs.append(("derive", "D %s;%s" % (v, f), v, f))
     gu = L.Gen(rng, tab)      # also functions without a rule: both sides must raise
     for _ in range(n_u):
-        f = gu.formula(4)
-        names = sorted(set(re.findall(r"\b(?:x|y|z|T|Q|b_2)\b", f))) or ["x"]
+        f, names = with_var(gu, 4)
         v = rng.choice(names)
         reqs.append(("unsupported", "D %s;%s" % (v, f), v, f))
     ge = L.Gen(rng, tab, diff_only=True, safe_only=True)
     for _ in range(n_e):
-        f = ge.formula(5)
-        names = sorted(set(re.findall(r"\b(?:x|y|z|T|Q|b_2)\b", f))) or ["x"]
+        f, names = with_var(ge, 5)
         v = rng.choice(names)
         reqs.append(("value", "E %s;%s;%s" % (v, L.bind_str(L.random_point(rng)), f), v, f))
 
